@@ -167,6 +167,19 @@ def decide(assertions, want_model=True, ext=True):
         return 'sat', (s.model() if want_model else None), 'z3-api', dt
     if not ext:
         return 'unknown', None, 'z3-api', dt
+    # quantifier-free attempt: a goal without quantifiers (frame obligations, arithmetic) is usually implied by the
+    # quantifier-free facts alone, while the quantified hypotheses of the context make the full query time out.
+    # A subset of the assumptions: `unsat` here is `unsat` of the whole query.
+    t1 = time.time()
+    if not has_quant(assertions[-1]) and any(has_quant(a) for a in assertions[:-1]):
+        s1 = z3.Solver()
+        s1.set('timeout', 3000)
+        s1.add(*[a for a in assertions if not has_quant(a)])
+        if s1.check() == z3.unsat:
+            STATS.setdefault('z3-api-sliced', [0, 0.0])
+            STATS['z3-api-sliced'][0] += 1
+            STATS['z3-api-sliced'][1] += time.time() - t1
+            return 'unsat', None, 'z3-api-sliced', time.time() - t0
     # sliced attempt: the quantifier-free facts plus the few quantified hypotheses that talk about the same
     # arrays as the goal.  A subset of the assumptions: `unsat` here is `unsat` of the whole query.
     t1 = time.time()
